@@ -194,6 +194,27 @@ def table_consistency(rows):
     return bad, notes
 
 
+def crossings_2n(row, Cd_ratio):
+    """Fluences (n/cm2/s, floats) at which two of the three rates of a '2n' chain
+    coincide, from the table values: [(label, fluence)] within [1, 1e18]."""
+    with localcontext() as ctx:
+        ctx.prec = 50
+        epi = (1 / D(Cd_ratio)) if Cd_ratio >= 1 else D(0)
+        c = D("1e-24") * 3600
+        s1 = (D(row["thermalXS"]) + epi * D(row["resonance"])) * c          # per unit fluence
+        s2 = (D(row["thermalXS_parent"]) + epi * D(row["resonance_parent"])) * c
+        lam = _ln2() / D(row["Thalf_hrs"])
+        lamp = _ln2() / D(row["Thalf_parent"])
+        out = []
+        if s1 > 0:
+            out.append(("target-burnup=product-decay", lam / s1))
+        if s2 > 0 and lam > lamp:
+            out.append(("intermediate-removal=product-decay", (lam - lamp) / s2))
+        if s1 > s2:
+            out.append(("target-burnup=intermediate-removal", lamp / (s1 - s2)))
+        return [(n, float(f)) for n, f in out if 1 <= f <= D("1e18")]
+
+
 def shared_daughters(rows):
     """Daughter names that activation.dat lists under two or more different parent
     ELEMENTS: [(daughter, parent1, parent2, [all tabulated half-lives of that
@@ -360,7 +381,11 @@ def kappa(row, fluence, Cd_ratio, fast_ratio, exposure, form="auto"):
     error EPS (1 + k t), and the sum of the terms an absolute error
     EPS * sum |term_i|:
 
-        kappa = sum_i |term_i| (3 + k_i t + sum_{j != i} (|k_i| + |k_j|)/|k_j - k_i|) / |sum_i term_i|
+        kappa = sum_i |term_i| (6 + k_i t) / |sum_i term_i| + 4 sum_i cond_i,
+        cond_i = |k_i dF/dk_i / F| of the exact solution F (the differences k_j - k_i are
+        computed accurately from the rounded rates, and F is smooth in the rates, so the
+        per-term amplification (|k_i|+|k_j|)/|k_j-k_i| cancels between terms and is not part
+        of the bound - it would hide errors of 1e-6 next to coincident rates)
 
     '2n' adds (s2 + lamp)/s2: the code recovers the capture rate s2 of the
     intermediate as (s2 + lamp) - lamp.
@@ -392,14 +417,23 @@ def kappa(row, fluence, Cd_ratio, fast_ratio, exposure, form="auto"):
                 s = sum(terms)
                 if s == 0:
                     return float("inf")
+                # Rounding of the evaluation: each term is computed from the (rounded) rates
+                # with a few eps relative error (a difference of two floats is itself
+                # accurate to eps/2 relative to its operands), the exponent adds k_i t eps.
                 tot = D(0)
                 for i, ti in enumerate(terms):
-                    a = 3 + ks[i] * t
-                    for j in range(3):
-                        if j != i:
-                            a += diffamp(ks[i], ks[j])
-                    tot += abs(ti) * a
-                k = tot / abs(s) + 2 * (r["s2"] + r["lamp"]) / r["s2"] + 8
+                    tot += abs(ti) * (6 + ks[i] * t)
+                # Rounding of the rates themselves: the exact solution is a smooth
+                # (divided-difference) function of the rates, so a relative perturbation eps
+                # of rate i changes it by cond_i * eps, with cond_i = |k_i dF/dk_i / F|
+                # (finite difference in decimal) - NOT by the (|ki|+|kj|)/|kj-ki| of one term.
+                cond = D(0)
+                h = D("1e-40")
+                for i in range(3):
+                    kk = list(ks)
+                    kk[i] = ks[i] * (1 + h)
+                    cond += abs(sum(_bateman_terms(kk, t)) - s) / (h * abs(s))
+                k = tot / abs(s) + 4 * cond + 2 * (r["s2"] + r["lamp"]) / r["s2"] + 8
             elif br == "b":
                 lp = r["lamp"]
                 if lp == lam:
@@ -408,7 +442,9 @@ def kappa(row, fluence, Cd_ratio, fast_ratio, exposure, form="auto"):
                 b = lp * ((-lam * t).exp() - 1)
                 if a == b:
                     return float("inf")
-                k = 3 * (abs(a) + abs(b)) / abs(a - b) + diffamp(lp, lam) + 8
+                # the quotient by (lamp - lam) is accurate relative to the rounded rates; the
+                # solution is smooth in the rates (condition ~ 1 + rate*t)
+                k = 3 * (abs(a) + abs(b)) / abs(a - b) + 4 * (2 + (lp + lam) * t) + 8
             else:
                 a_, b_ = r["s1"], lam + r["s2"]
                 if a_ == b_:
